@@ -50,8 +50,14 @@ def generate(rng, tier):
         if rng.random() < 0.35:
             for i in rng.sample(range(nr), rng.randint(1, max(1, nr - 1))):
                 scale_exp[i] = rng.choice([-32, -32, -10, 12])
+        plabel = None
+        if kind == 'cv' and rng.random() < 0.5:
+            # conditions named by a descriptor whose values are unique but not ascending (seeded change C07-m10)
+            plabel = [3 * v + 2 for v in range(nc)]
+            while plabel == sorted(plabel):
+                rng.shuffle(plabel)
         out.append(dict(kind=kind + ':' + method, call=kind, method=method, n_cond=nc, v8=vs, nan=nanmask, groups=groups,
-                        scale_exp=scale_exp,
+                        scale_exp=scale_exp, plabel=plabel,
                         k_rdm=rng.randint(1, 2) if nr >= 2 else 1, k_pattern=rng.randint(1, 2), seed=rng.randrange(10 ** 6)))
     return out
 
@@ -85,7 +91,12 @@ def run(c):
         p = pool_rdm(r, c['method'])
         o['pool'] = [None if math.isnan(x) else float(x) for x in p.dissimilarities[0]]
     else:
-        train, test, ceil = sets_k_fold(r, k_rdm=c['k_rdm'], k_pattern=c['k_pattern'], random=False)
+        pdesc = 'index'
+        if c.get('plabel'):
+            pdesc = 'stim'
+            r.pattern_descriptors['stim'] = list(c['plabel'])
+        pos = {v: i for i, v in enumerate(c['plabel'])} if c.get('plabel') else None
+        train, test, ceil = sets_k_fold(r, k_rdm=c['k_rdm'], k_pattern=c['k_pattern'], random=False, pattern_descriptor=pdesc)
         folds = []
         use = []
         for i in range(len(test)):
@@ -99,10 +110,10 @@ def run(c):
             folds.append(dict(train=[[None if math.isnan(x) else float(x) for x in v] for v in ceil[i][0].dissimilarities],
                               train_keys=[int(x) for x in ceil[i][0].pattern_descriptors['index']],
                               test=[[None if math.isnan(x) else float(x) for x in v] for v in test[i][0].dissimilarities],
-                              test_vals=[int(x) for x in test[i][1]]))
+                              test_vals=[int(x) if pos is None else pos[int(x)] for x in test[i][1]]))
         if not folds:
             return dict(skip=True)
-        lo, hi = cv_noise_ceiling(r, [ceil[i] for i in use], [test[i] for i in use], method=c['method'])
+        lo, hi = cv_noise_ceiling(r, [ceil[i] for i in use], [test[i] for i in use], method=c['method'], pattern_descriptor=pdesc)
         o.update(lo=float(lo), hi=float(hi), folds=folds, full_keys=[int(x) for x in r.pattern_descriptors['index']])
     if not np.array_equal(before, r.dissimilarities, equal_nan=True):
         return {'error': 'INPUT_MUTATED'}
